@@ -52,6 +52,7 @@ type sysRemote struct {
 	Iter       func(ctx context.Context, tag int, n int, cb cbT) (string, error)
 	IterErr    func(ctx context.Context, tag int, x int, cb cbE) error
 	Keep       func(ctx context.Context, tag int, cb cbI) error
+	Delayed    func(ctx context.Context, tag int, cb cbI) (int, error)
 	WhoAmI     func(ctx context.Context, tag int) (string, error)
 	Sub        struct {
 		Deep struct {
@@ -274,6 +275,16 @@ func (l *sysLocal) Keep(ctx context.Context, tag int, cb cbI) error {
 	l.w.kept[tag] = cb
 	l.w.mu.Unlock()
 	return nil
+}
+// Delayed invokes the closure only after its gate has been opened
+func (l *sysLocal) Delayed(ctx context.Context, tag int, cb cbI) (int, error) {
+	l.inv(ctx, "Delayed", tag, nil)
+	select {
+	case <-l.w.gate(tag):
+	case <-time.After(20 * time.Second):
+		return -1, errors.New("gate timeout")
+	}
+	return cb(ctx, tag)
 }
 func (l *sysLocal) WhoAmI(ctx context.Context, tag int) (string, error) {
 	id := rpc.GetRemoteID(ctx)
